@@ -178,7 +178,9 @@ def main():
         'checks': checks,
         'not_applicable': [{'property_id': p, 'reason': NOT_YET} for p in props if p not in CHECKS],
         'notes': 'See DESIGN.md. VIOLATION only from contract clauses evaluated on observations of the real code; '
-                 'machine/code disagreement without a contract failure is reported as DRIFT and does not fail a check.',
+                 'machine/code disagreement without a contract failure is reported as DRIFT and does not fail a check. '
+                 'tools/selftest.py (vacuity + corrupted-trace rejection) -> selftest.json; seeded/ holds 86 confirmed code changes and '
+                 'seeded/RESULTS.md which check catches which; known_findings.json lists 2 open findings (C06, C11) and the fix: commits.',
     }
     with open(os.path.join(ROOT, 'MANIFEST.json'), 'w') as f:
         json.dump(man, f, indent=1)
